@@ -83,6 +83,13 @@ CORPUS = [
                             F("e", Enum([V("A", L("u8"), attrs=F(None, None, get=True, get_mut=True, validate=True,
                                                                  deny={"serialize": "no ser", "mut_any": "no mut"})),
                                          V("B", L("u8"))]))])),
+    # denials on INTERNAL nodes (a struct and an array): the denial is reported at the field, before anything below it is
+    # looked at — also for keys that are wrong, too short or too long below it
+    ("deny_internal", Struct([F("locked", Struct([F("x", L("u8")), F("arr", Array(2, L("u8")))]),
+                                deny={"serialize": "no ser", "deserialize": "no de", "ref_any": "no ref", "mut_any": "no mut"}),
+                              F("rows", Array(2, named(("a", L("u8")), ("b", L("u8")))),
+                                deny={"serialize": "no ser rows", "mut_any": "no mut rows"}),
+                              F("open", L("u8"))])),
     ("deep", named(("a", named(("b", named(("c", named(("d", named(("e", L("u8")), ("f", L("u8")))),)),)),)),
                    ("longname_with_many_bytes", Array(10, L("u8"))), ("z", L("u8")))),
     ("values", named(("u8", L("u8")), ("u64", L("u64")), ("i8", L("i8")), ("i64", L("i64")), ("b", L("bool")),
